@@ -265,6 +265,18 @@ def check_module(progs, tmp, idx, layout=None):
     except Exception as ex:
         return '', '', [('crash', 'the dump command raised %s: %s' % (type(ex).__name__, ex))], text, modname
     exs = real_examples(path, style)
+    # STATEFUL: what the pytest plugin does with the same doctests (is_disabled(pytest=True)) in the same process,
+    # and a second dump, must not change what the native dump emits for the unchanged module
+    seq = []
+    try:
+        for ex in exs:
+            ex.is_disabled(pytest=True)
+        again = real_dump(path, style)
+        if again != real:
+            seq.append(('unstable', 'a second dump of the unchanged module (after is_disabled(pytest=True) was asked, as the '
+                        'plugin does) differs from the first: %r vs %r' % (again[:300], real[:300])))
+    except Exception as ex2:
+        seq.append(('crash', 'the second dump raised %s: %s' % (type(ex2).__name__, ex2)))
     m0 = dec(driver.run_lines([model_line(exs, [[] for _ in exs])], jobs=1)[0])
     und = []
     for defline, body in function_bodies(m0):
@@ -274,7 +286,7 @@ def check_module(progs, tmp, idx, layout=None):
             und.append([])
     und = (und + [[] for _ in exs])[:len(exs)]
     model = dec(driver.run_lines([model_line(exs, und)], jobs=1)[0]) if exs else ''
-    return model, real, problems(progs, names, modname, real), text, modname
+    return model, real, problems(progs, names, modname, real) + seq, text, modname
 
 
 def _shard(args):
